@@ -13,7 +13,8 @@ vars == <<doc>>
 TypeSets == IF WithTypes
             THEN { <<>>, <<[kind |-> "enum", name |-> <<"E">>, pay |-> "p0"]>>,
                    <<[kind |-> "subint", name |-> <<"S">>, pay |-> "p0"], [kind |-> "bogus", name |-> <<"B">>, pay |-> "p0"],
-                     [kind |-> "enum", name |-> <<"X">>, pay |-> "p1"]>> }
+                     [kind |-> "enum", name |-> <<"X">>, pay |-> "p1"]>>,
+                   <<[kind |-> "extern", name |-> <<"T">>, pay |-> "p0"], [kind |-> "subint", name |-> <<"S">>, pay |-> "p1"]>> }
             ELSE { <<>> }
 Tokens ==
   {[t |-> "open", ids |-> ids] : ids \in NsNames}
